@@ -356,6 +356,15 @@ def _main(tier):
                 broken.setdefault(area, []).append("obligations of %s no longer check" % f)
         if not broken:
             broken.setdefault("all", []).append("Props/C19.v does not compile: " + r["failed"][:400])
+    coqchk = None
+    if thorough and r["ok"]:
+        with common.Lock("coq"):
+            rc, out = common.run(["coqchk", "-silent", "-o", "-Q", ".", "Nexus", "Nexus.Props.C19"], cwd=COQ, timeout=1500)
+        m = re.search(r"\* Axioms:\s*(.*?)\n\s*\n", out, re.S)
+        coqchk = "rc=%d axioms=%s" % (rc, " ".join(m.group(1).split()) if m else "?")
+        if rc != 0 or not m or "<none>" not in m.group(1):
+            broken.setdefault("all", []).append("coqchk on Props/C19.vo: " + coqchk + " " + out[-300:])
+        phase("coqchk")
     hyg = [h for h in common.hygiene_scan() if h.startswith(("Wamp/", "Props/C19.v", "gen/GenC19"))]
     if hyg:
         broken.setdefault("all", []).append("hygiene: " + "; ".join(hyg[:5]))
@@ -589,6 +598,7 @@ def _main(tier):
         "checker_cmd": "make -f Makefile.coq (coqc, full .vo) for coq/Wamp/*.v coq/gen/GenC19*.v; coqc -Q . Nexus Props/C19.v; coqc cases/C19Cases.v",
         "trusted_base": trusted,
         "axioms": r["axioms"],
+        "coqchk": coqchk,
         "translator_status": status,
         "evaluations": int(summary.get("lines", 0)) + int(summary.get("corpus_lines", 0)),
         "corpus_lines": int(summary.get("corpus_lines", 0)),
